@@ -18,7 +18,7 @@ func init() {
 		ID:      "C08",
 		Level:   "other",
 		Explain: "The equation between the two renderings relates two runs and is not decided. Decided is one clause of its mechanism, a necessary condition: a leaf block parser must not consume the line terminator, otherwise the next line's container marker is taken as content. (L) In every BlockParser.Open/Continue of the module and the module helpers they hand the reader to, AdvanceLine is never called on the reader, and no Advance/AdvanceAndSetPadding argument is — after normalising to a linear form over the peeked segment's Stop, Start, Padding, len(line) and Segment.Len() — provably at least the full length of the peeked line. The rule flags only what is provably a whole line (a bug finder without false alarms, not a proof). Does NOT decide marker/tab column arithmetic, blank-line bookkeeping or lazy continuation.",
-		Rules:   []func(*World, *Report){ruleStayOnLine, ruleFreeParsersRejectBlankLines, ruleQuoteMarkerAndOneSpace, ruleOneBlankNotion, ruleQuoteWrapper, ruleSpansThroughReader, ruleRenderersReadPerSegment},
+		Rules:   []func(*World, *Report){ruleStayOnLine, ruleFreeParsersRejectBlankLines, ruleQuoteMarkerAndOneSpace, ruleOneBlankNotion, ruleQuoteWrapper, ruleSpansThroughReader, ruleRenderersReadPerSegment, rulePrecedingCharacterClassified},
 	})
 	register(&Property{
 		ID:      "C09",
